@@ -21,7 +21,7 @@ var vpSpec = map[ActivityVocabularyType]vpSpecEntry{
 	"Undo": {"Activity", "activity"}, "Update": {"Activity", "activity"}, "View": {"Activity", "activity"},
 	"IntransitiveActivity": {"IntransitiveActivity", "intransitive"}, "Arrive": {"IntransitiveActivity", "intransitive"}, "Travel": {"IntransitiveActivity", "intransitive"},
 	"Question": {"Question", "intransitive"},
-	"Actor": {"Actor", "actor"}, "Application": {"Actor", "actor"}, "Group": {"Actor", "actor"}, "Organization": {"Actor", "actor"},
+	"Actor":    {"Actor", "actor"}, "Application": {"Actor", "actor"}, "Group": {"Actor", "actor"}, "Organization": {"Actor", "actor"},
 	"Person": {"Actor", "actor"}, "Service": {"Actor", "actor"},
 	"Collection": {"Collection", "collection"}, "OrderedCollection": {"OrderedCollection", "collection"},
 	"CollectionPage": {"CollectionPage", "collection"}, "OrderedCollectionPage": {"OrderedCollectionPage", "collection"},
@@ -295,10 +295,11 @@ func vpH_C07_populated() {
 	}
 	x := vpNew(ti)
 	vpSetField(x, 0, 0, 'i')
+	shape := vpChoice(vpShapes(fields[f].Kind))
 	if f != 0 {
-		vpSetField(x, f, 0, 'a')
+		vpSetField(x, f, shape, 'a')
 	}
-	cell := vpTypeNames[ti] + "." + fields[f].Name
+	cell := vpTypeNames[ti] + "." + fields[f].Name + "/" + string([]byte{'0' + byte(shape/10), '0' + byte(shape%10)})
 	var y Item
 	var err error
 	isJSON := vpBool()
